@@ -935,7 +935,7 @@ def null_model_dir_sign(W, bin_swaps=5, wei_freq=.1, seed=None):
        formal tests (such as the Kolmogorov-Smirnov test) if desired.
     '''
     rng = get_rng(seed)
-    W = W.copy()
+    W = np.array(W, dtype=float)  # work on a float copy
     n = len(W)
     np.fill_diagonal(W, 0)  # clear diagonal
     Ap = (W > 0)  # positive adjmat
